@@ -200,6 +200,15 @@ def o4_o5(prog, rep):
         for e in f.all_elems():
             if e.is_assign and e.op in ("&=", "=") and fieldname(norm(e.kid(0))) == "events" and f.name != "growpollfd":
                 rep.bad("O5-stale", "%s in %s" % (e.text[:40], f.name), e.where, "bits of .events are cleared outside clearbit, leaving stale .revents", function=f.name, construct="events-clear")
+    # compaction: the entry moved into the vacated slot arrives whole -- descriptor, mask and the readiness the last poll reported for
+    # *it* (the vacated slot's own revents belong to a descriptor that is no longer there)
+    mv = [c for c in cb.calls("memcpy") if any(t[0] == "[]" and t[1][0] == "v" and t[1][1] == "fds" for t in subterms(norm(c.arg(0))))]
+    psize = (u.records.get("pollfd") or {}).get("size")
+    whole = any(norm(c.arg(2))[0] == "c" and psize and norm(c.arg(2))[1] == psize for c in mv)
+    copied = set(fieldname(norm(e.kid(0))) for e in cb.all_elems() if e.is_assign and e.op == "=" and fieldname(norm(e.kid(0))) in ("fd", "events", "revents")
+                 and fieldname(norm(e.kid(1))) == fieldname(norm(e.kid(0))))
+    rep.check(whole or copied >= {"fd", "events", "revents"}, "O5-stale", "clearbit moves the last entry into the vacated slot whole (fd, events and its own revents)", cb.loc,
+              "copied: %s" % (("memcpy of %s bytes" % [show(norm(c.arg(2))) for c in mv]) if mv else sorted(copied)), function="clearbit", construct="compact-whole")
     gp = u.func("growpollfd")
     z = {fieldname(norm(e.kid(0))): norm(e.kid(1)) for e in gp.all_elems() if e.is_assign and e.op == "=" and fieldname(norm(e.kid(0))) in ("events", "revents")}
     rep.check(z == {"events": ("c", 0), "revents": ("c", 0)}, "O5-stale", "a new pollfd starts with events = revents = 0", gp.loc, "%s" % z, function="growpollfd", construct="init")
@@ -395,6 +404,40 @@ def o6(prog, rep):
     rep.check(len(cps) == 1 and len(ph) == 1 and inc.dominates(cps[0], ph[0]), "O6-notearly", "timerqueue_increase stores the new deadline, then re-sifts", inc.loc, "", function=inc.name, construct="increase")
 
 
+def o6_double(prog, rep):
+    """events_timer_register_double: the number of seconds in a double becomes a timeval without passing through anything narrower
+    than the timeval's own fields -- tv_sec is the value converted to time_t, tv_usec what is left times a million, and no integer
+    object or conversion of fewer than 64 bits holds a quantity computed from the timeout (2^31 microseconds is 36 minutes)."""
+    u = prog.unit("events/events_timer.c")
+    f = u.func("events_timer_register_double")
+    if f is None:
+        raise cdb.AnalysisBroken("anchor missing: events_timer_register_double")
+    dp = [p for p in f.params if (u.types.get(p["ty"]) or {}).get("kind") in ("float", "double", "real")]
+    if len(dp) != 1:
+        raise cdb.AnalysisBroken("events_timer_register_double: the double parameter was not found")
+    T = ("v", dp[0]["name"], dp[0]["id"])
+    tainted = {T}
+    ch = True
+    while ch:
+        ch = False
+        for e in f.all_elems():
+            if e.is_assign and any(t in tainted for t in subterms(norm(e.kid(1)))) and norm(e.kid(0)) not in tainted:
+                tainted.add(norm(e.kid(0)))
+                ch = True
+    narrow = []
+    for e in f.all_elems():
+        ty = u.types.get(e.ty) or {}
+        if ty.get("kind") == "int" and (ty.get("size") or 8) < 8 and any(t in tainted for t in subterms(norm(e))) and e.cls in ("CStyleCastExpr", "ImplicitCastExpr", "DeclRefExpr", "MemberExpr"):
+            if e.cls in ("CStyleCastExpr", "ImplicitCastExpr") and e.op not in ("IntegralCast", "FloatingToIntegral", None):
+                continue
+            narrow.append(e)
+    secs = [e for e in f.all_elems() if e.is_assign and e.op == "=" and norm(e.kid(0))[0] == "." and norm(e.kid(0))[2] == "tv_sec"]
+    oks = len(secs) == 1 and norm(secs[0].kid(1)) == T
+    rep.check(oks and not narrow, "O6-notearly", "events_timer_register_double converts the timeout without narrowing", f.loc,
+              ("tv_sec = %s; " % (show(norm(secs[0].kid(1))) if secs else "?")) + ("a %d-bit integer holds part of the timeout at %s" % (8 * ((u.types.get(narrow[0].ty) or {}).get("size") or 0), narrow[0].loc) if narrow else "no narrow integer"),
+              function=f.name, construct="double-conversion")
+
+
 def o7_slotrange(prog, rep):
     """The socket table is indexed by descriptor number, and a descriptor has a record exactly when its number is below the
     table's size.  Relational (sa/poly.py) with the size as a ghost quantity that socketlist_getsize answers and a successful
@@ -474,6 +517,7 @@ def run(tier):
         o4_o5(prog, rep)
         o7_slotrange(prog, rep)
         o6(prog, rep)
+        o6_double(prog, rep)
         # handle consistency of the timer heap: a stale handle makes cancel remove the wrong timer, so a cancelled
         # registration's callback runs (rules shared with C13)
         from . import c13
